@@ -36,7 +36,7 @@ func (r *rpT) UnmarshalResourcePath(segments []restlicodec.Reader) error {
 
 type qpT struct{}
 
-func (q *qpT) NewInstance() *qpT                                      { return new(qpT) }
+func (q *qpT) NewInstance() *qpT                                     { return new(qpT) }
 func (q *qpT) DecodeQueryParams(restlicodec.QueryParamsReader) error { return nil }
 
 type entT struct{ X int32 }
